@@ -37,30 +37,38 @@ def build_cases(tier):
                 # null-record patterns: none; before the first; between; after the last (all-zero records)
                 pats = [()] if n > 2 and tier == "quick" else [(), (0,), (n,)] + ([(1,)] if n >= 2 else [])
                 for nulls in pats:
-                    cases.append((l[0], assign, nulls))
+                    cases.append((l[0], assign, nulls, "zero", False))
+                if n <= 2 or tier == "thorough":
+                    # all-0xFF records (unparsable, must be skipped like null records) in the same positions
+                    for nulls in ([(0,), (n,)] + ([(1,)] if n >= 2 else [])):
+                        cases.append((l[0], assign, nulls, "ff", False))
+                    # records whose text is as long as the layout allows
+                    if lay["kind"] not in ("acct", "acct_v3", "acct_bsd"):
+                        cases.append((l[0], assign, (), "zero", True))
     return cases
 
 
-def make_file(lay, assign, nulls):
+def make_file(lay, assign, nulls, nullkind="zero", fat=False):
     dom = time_domain(lay)
+    nullrec = bytes(lay["size"]) if nullkind == "zero" else b"\xff" * lay["size"]
     recs = []
     meta = []   # (token, sec, usec, file position)
     pos = 0
     for i, a in enumerate(assign):
         if i in nulls:
-            recs.append(bytes(lay["size"]))
+            recs.append(nullrec)
             pos += 1
         tok = b"K%dq%d" % (i, a)
         sec, usec = dom[a]
-        recs.append(layouts.record(lay, sec, usec, tok, i))
+        recs.append(layouts.record(lay, sec, usec, tok, i, fat=fat))
         meta.append((tok, sec, usec, pos))
         pos += 1
     if len(assign) in nulls:
-        recs.append(bytes(lay["size"]))
+        recs.append(nullrec)
     return b"".join(recs), meta
 
 
-def judge(lay, meta, r):
+def judge(lay, meta, r, variant=None):
     """returns list of (features, what)"""
     out = []
     if r.timed_out or r.rc not in (0, 1):
@@ -75,6 +83,8 @@ def judge(lay, meta, r):
     if lines and lines[-1] == b"":
         lines.pop()
     base = {"layout": lay["id"], "has_ties": has_ties}
+    if variant:
+        base["null_kind"], base["fat_records"] = variant[1], variant[2]
     if stray_nul:
         out.append((dict(base, symptom="stray-nul-after-record", every_record=stray_nul == len(lines)),
                     "each record line is followed by a NUL byte that belongs to no record (%d NULs for %d lines)" % (stray_nul, len(lines))))
@@ -124,9 +134,9 @@ def run(tier, seed, build=True):
         conts = ["plain"] + (["gz", "tar"] if tier == "thorough" else ["gz"])
         common.log("[C08] %d record files over %d layouts" % (len(cases), len(layouts.LAYOUTS)))
         items = []
-        for ci, (lid, assign, nulls) in enumerate(cases):
+        for ci, (lid, assign, nulls, nullkind, fat) in enumerate(cases):
             lay = layouts.layout(lid)
-            data, meta = make_file(lay, assign, nulls)
+            data, meta = make_file(lay, assign, nulls, nullkind, fat)
             d = os.path.join(work, "c%d" % ci)
             os.makedirs(d)
             common.write_file(os.path.join(d, lay["file"]), data)
@@ -141,7 +151,7 @@ def run(tier, seed, build=True):
                     fname = "a.tar"
                     common.write_file(os.path.join(d, fname), gen.tar([(lay["file"], data)]))
                 for bsz in (bszs_for(lay) if cont == "plain" else [65536]):
-                    items.append((ci, lid, assign, nulls, cont, fname, bsz, d, meta))
+                    items.append((ci, lid, assign, (nulls, nullkind, fat), cont, fname, bsz, d, meta))
 
         def one(it):
             ci, lid, assign, nulls, cont, fname, bsz, d, meta = it
@@ -153,7 +163,7 @@ def run(tier, seed, build=True):
             lay = layouts.layout(lid)
             res.count()
             res.distinct((lid, assign, nulls))
-            for feats, what in judge(lay, meta, r):
+            for feats, what in judge(lay, meta, r, nulls):
                 feats = dict(feats, container=cont)
                 res.violation(feats, "%s records=%s nulls=%s %s blocksz %d: %s" % (lid, assign, nulls, cont, bsz, what),
                               {"engine": "E-CLI", "args": args, "files": {fname: common.b64(open(os.path.join(d, fname), "rb").read())},
